@@ -1,7 +1,7 @@
 (* C20 correspondence: the model's prediction (outcome kind, receiver written, result shape)
    against what the Go implementation did on the same call. *)
-From Coq Require Import ZArith List Bool.
-From ADV Require Import Base.Corr C20.Model.
+From Coq Require Import ZArith List Bool Floats.
+From ADV Require Import Base.Corr Base.Num C20.Model.
 Import ListNotations.
 Open Scope Z_scope.
 
@@ -13,3 +13,40 @@ Definition obs_eqb (a b : obs) : bool :=
   (k1 =? k2) && Bool.eqb d1 d2 && list_eqb Z.eqb o1 o2.
 Definition check (c : case) : bool := obs_eqb (predict (fst c)) (snd c).
 Definition mism (cs : list case) : list nat := mismatches check cs.
+
+(* ---- termination stream: observed iteration / evaluation counts against the proved caps *)
+Inductive tcase := TC (rid cap iters evals : Z) (exact : bool).
+(* a body that never leaves the loop early runs exactly `cap` times *)
+Definition never_exit_iters (cap : Z) : option nat :=
+  iters_of (capped (fun s : unit => @inl unit unit s) (Z.to_nat cap) 0 tt).
+Definition tcheck (t : tcase) : bool :=
+  match t with
+  | TC rid cap iters evals exact =>
+      (if rid =? 5 then evals <=? cap + 2                       (* lineSearch: linesearch_evals_bound *)
+       else iters <=? cap + (if rid =? 2 then 1 else 0))        (* bfgs calls its hook once before the loop *)
+      && (if exact then match never_exit_iters cap with Some n => Z.of_nat n =? iters | None => false end else true)
+  end.
+Definition tmism (cs : list tcase) : list nat := mismatches tcheck cs.
+
+(* ---- QR: bit-exact replay of qrAlgorithm.QRstep on a 2x2 block and of whole 2x2 runs *)
+Inductive qcase :=
+| QStep (h : blk (A := float)) (trace : list (blk (A := float)))
+| QRun (h : blk (A := float)) (eps : float) (hung : bool) (final : blk (A := float)).
+Definition blk_eqb (a b : blk (A := float)) : bool :=
+  feqb (b11 a) (b11 b) && feqb (b12 a) (b12 b) && feqb (b21 a) (b21 b) && feqb (b22 a) (b22 b).
+Fixpoint steps_match (h : blk (A := float)) (tr : list (blk (A := float))) : bool :=
+  match tr with
+  | [] => true
+  | x :: r => let h' := qrstep2 NumF h in blk_eqb h' x && steps_match h' r
+  end.
+Definition qcheck (q : qcase) : bool :=
+  match q with
+  | QStep h tr => steps_match h tr
+  | QRun h eps hung final =>
+      match qr_run2 NumF eps 20000 h with
+      | Done r _ => negb hung && blk_eqb r final
+      | OutOfFuel _ => hung
+      | CapHit _ _ => false
+      end
+  end.
+Definition qmism (cs : list qcase) : list nat := mismatches qcheck cs.
